@@ -9,6 +9,7 @@ boundary (crash injector, DESIGN.md 3.6).
 import os, shutil, json, hashlib, sqlite3 as real_sqlite3
 from .. import modelrun
 from ..translators import c13_store as tr
+from .. import c13_manager as cm
 
 ASSUME = [
     "modelled, not verified: SQLite itself (a commit is atomic and durable; reopening a database with a hot "
@@ -29,7 +30,11 @@ ASSUME = [
     "provided all variants give one statement/commit skeleton ('measured only (...)'), else the tie is broken. In "
     "every case + differential traces: at every statement and commit boundary of every call the snapshot (db + "
     "journal) reopened by a fresh connection equals the model's durable database",
-    "conversations continuing across restarts with live ratchets is exercised by C03's simulator, not here",
+    "conversations continuing across restarts: manager-level histories (harness/c13_manager.py: two/three real "
+    "AxolotlManagers on real LiteAxolotlStores, first contact, replies, groups, restarts, every exceptional path of "
+    "every manager entry point) with implementation-side oracles only -- durable is live after every call (a copy "
+    "of the database file holds what the live connection returns), tables unchanged by a restart, every message "
+    "delivered or refused as expected; the ratchet itself is not modelled in Coq, the full stack is C03's simulator",
 ]
 
 WRITE_VERBS = ("INSERT", "UPDATE", "DELETE", "REPLACE")
@@ -571,6 +576,10 @@ def run_impl(ctx, meta, ops, tag="s"):
                     # long history: this call's crash points are not sampled; the specification is kept up to date
                     # and contents are compared again at the next sampled call
                     out.traces.append(None)
+                    if rig.conn._real.in_transaction:
+                        out.problems.append(("oracle:durable", {
+                            "op": idx, "what": "the call returned with a write transaction open: what it wrote is lost "
+                                               "when the process dies now"}))
                     if rig.c_commits != rig.py_commits:
                         out.problems.append(("driver", {"op": idx, "error": "a commit is issued in a way the proxy does not see"}))
                     if out.problems:
@@ -920,6 +929,58 @@ def shrink(ctx, meta, ops, pred):
     return cur
 
 
+def manager_histories(ctx):
+    """harness/c13_manager.py: two/three real AxolotlManagers on real LiteAxolotlStores; directed histories over every
+    exceptional path of every manager entry point, then seeded random ones.  Independent of the extraction."""
+    hs = [("manager-directed", h) for h in cm.directed()]
+    n = 40 if ctx.tier == "quick" else 600
+    hs += [("manager-random", cm.random_history(ctx.rng, ctx.rng.choice([8, 14, 20]))) for _ in range(n)]
+    st = {"histories": 0, "ops_executed": 0, "ops_skipped_by_the_model": 0, "manager_and_store_calls": 0,
+          "durable_is_live_checks": 0, "failing": 0}
+    for origin, ops in hs:
+        try:
+            probs, s = cm.run_history(ctx.scratch, ops)
+        except Exception as e:
+            ctx.violation("oracle:store-raised", {"mops": ops, "error": repr(e)[:300], "origin": origin})
+            st["failing"] += 1
+            if st["failing"] >= 2:
+                break
+            continue
+        st["histories"] += 1
+        st["ops_executed"] += s["executed"]
+        st["ops_skipped_by_the_model"] += len(ops) - s["executed"]
+        st["manager_and_store_calls"] += s["calls"]
+        st["durable_is_live_checks"] += s["checks"]
+        if probs:
+            name = probs[0][0]
+            cur, budget = list(ops), 40
+            changed = True
+            while changed and budget > 0:            # shrink: drop ops while the same oracle still fails
+                changed = False
+                for i in range(len(cur) - 1, -1, -1):
+                    cand = cur[:i] + cur[i + 1:]
+                    budget -= 1
+                    try:
+                        p2, _ = cm.run_history(ctx.scratch, cand, "k")
+                    except Exception:
+                        p2 = []
+                    if any(n_ == name for n_, _ in p2):
+                        cur, changed = cand, True
+                    if budget <= 0:
+                        break
+            try:
+                p2, _ = cm.run_history(ctx.scratch, cur, "k")
+            except Exception:
+                p2 = []
+            det = next((d for n_, d in p2 if n_ == name), probs[0][1])
+            ctx.violation(name, {"mops": cur, "detail": det, "origin": origin,
+                                 "parties": "real AxolotlManager on real LiteAxolotlStore, one SQLite file each"})
+            st["failing"] += 1
+            if st["failing"] >= 2:
+                break
+    return st
+
+
 def run(ctx):
     meta = measured_layout = None
     state = []
@@ -1033,13 +1094,17 @@ def run(ctx):
                 oracle_hits += 1
             if oracle_hits >= 3:
                 break
-        for name_, case_, fi_ in deferred:
-            ctx.violation(name_, case_, found_input=fi_)
         if model is not None:
             ok = model.call("run_store_ok", [])
             ctx.coverage["store_ok_computed_by_extracted_model"] = bool(ok)
             model.close()
             ctx.ties["correspondence"] = "ok" if corr_bad == 0 else "broken"
+    # ---- manager level (whatever the extraction said): conversations continue across restarts; durable is live
+    mstats = manager_histories(ctx)
+    ctx.coverage["manager_histories"] = mstats
+    evaluations += mstats["histories"]
+    for name_, case_, fi_ in deferred:
+        ctx.violation(name_, case_, found_input=fi_)
     for k in ("translator:c13_store",):
         if not ctx.ties.get(k, "ok").startswith("ok") and not ctx.violations:
             ctx.tie_broken_without_input(k, ctx.ties[k])
@@ -1072,6 +1137,18 @@ def run(ctx):
 
 def replay(ctx, data):
     case = data["case"]
+    if "mops" in case:
+        probs, st = cm.run_history(ctx.scratch, case["mops"], "r")
+        for i, o in enumerate(case["mops"]):
+            print("op %d %s" % (i, json.dumps(o)))
+        for n, d in probs:
+            print("observed:", n, json.dumps(d, default=str)[:1200])
+        print("expected: after every manager call a copy of the database file holds what the live connection returns; "
+              "after every restart all tables are unchanged; every message is delivered or refused as the protocol says")
+        if probs:
+            print("VIOLATION property=C13 replay=(replayed)")
+            return 1
+        return 0
     if "ops" not in case:
         print("nothing to replay on the implementation:", json.dumps(case)[:600])
         return 1
